@@ -551,6 +551,28 @@ def make_machine(enable_alt):
         def make_list(self, items):
             self.do(("op", "list", [("e", i, ("real", "complex")) for i in items]))
 
+        @rule(
+            a=st.integers(0, 50),
+            raws=st.sampled_from(
+                [
+                    [("float", "0x0p+0"), ("float", "-0x0p+0")],
+                    [("float", "-0x0p+0"), ("float", "0x0p+0")],
+                    [("int", 1), ("float", "0x1p+0"), ("bool", True)],
+                    [("float", "0x1p+0"), ("int", 1)],
+                    [("bool", False), ("int", 0), ("float", "0x0p+0")],
+                    [("int", 2), ("float", "0x1p+1")],
+                    [("float", "0x1p+1"), ("int", 2), ("int", 2)],
+                ]
+            ),
+            first=st.booleans(),
+        )
+        def list_with_equal_raw_numbers(self, a, raws, first):
+            # several raw Python numbers in ONE construction that compare equal (0.0 == -0.0, 1 == 1.0 == True) but are
+            # different constants: each must become its own constant
+            items = [("raw", r) for r in raws]
+            items.insert(0 if first else len(items), ("e", a, ("real",)))
+            self.do(("op", "list", items))
+
         @rule(i=st.integers(0, 200))
         def rebuild(self, i):
             self.do(("rebuild", i))
